@@ -3,7 +3,7 @@
    the four codes) and Proofs/Address.v (lifting to address strings). *)
 From Coq Require Import List NArith Bool Lia.
 From Coq.Strings Require Import Byte.
-From EV Require Import Base.Bytes Gen.Tables Model.Bech32 Model.Base58 Model.Address Proofs.Bech32 Proofs.Bech32Codes Proofs.Address Proofs.AddressB58.
+From EV Require Import Base.Bytes Gen.Tables Model.Bech32 Model.Base58 Model.Address Proofs.Bech32 Proofs.Bech32Codes Proofs.Address Proofs.AddressB58 Proofs.AddressCase.
 Import ListNotations.
 Open Scope N_scope.
 
@@ -69,7 +69,25 @@ Theorem C17_from_str_is_builtin : forall (H : bytes -> bytes) (pk_valid : bytes 
   from_str H pk_valid s = AOk a -> is_segwit a -> exists p, In p builtin /\ parse_with_params H pk_valid s p = AOk a.
 Proof. exact from_str_segwit. Qed.
 
-(* FULL STATEMENT NOT PROVED (HRP clause, declared partial in DESIGN.md):
+(* HRP clause, case part (proved, unbounded).  mixed_case s: s has an upper-case and a lower-case ASCII letter anywhere, human-readable
+   part included.  Such a string is rejected by check_characters of either decoder (upstream bech32 crate and src/blech32/decode.rs share the
+   model function), so it never parses as a segwit address — under any parameters and through FromStr; where its prefix matches an HRP of the
+   network it is an error outright.  In particular replacing letters of the human-readable part by their other-case forms (one, two or all
+   of them: `EL1qq0umk...`, `Lq1...`, `eX1...`) while the data part keeps a letter of the original case never yields a string that parses. *)
+Theorem C17_mixed_case : forall cfg s, mixed_case s = true ->
+  segwit_decode cfg s = Err ETooLong \/ segwit_decode cfg s = Err EInvalidChar \/ segwit_decode cfg s = Err EMixedCase.
+Proof. exact segwit_decode_mixed. Qed.
+Theorem C17_mixed_case_address : forall (H : bytes -> bytes) (pk_valid : bytes -> bool) s p, mixed_case s = true ->
+  (forall a, parse_with_params H pk_valid s p = AOk a -> ~ is_segwit a) /\
+  (segwit_path s p = true -> exists e, parse_with_params H pk_valid s p = AErr e) /\
+  (forall a, from_str H pk_valid s = AOk a -> ~ is_segwit a).
+Proof. intros H pkv s p M. destruct (mixed_case_rejected H pkv s p M) as [A B]. split; [exact A|split; [exact B|intros a; exact (mixed_case_rejected_from_str H pkv s a M)]]. Qed.
+Theorem C17_hrp_case : forall (H : bytes -> bytes) (pk_valid : bytes -> bool) h d p,
+  (existsb is_upper h = true /\ existsb is_lower d = true) \/ (existsb is_lower h = true /\ existsb is_upper d = true) ->
+  (forall a, parse_with_params H pk_valid (h ++ x31 :: d) p = AOk a -> ~ is_segwit a) /\ (forall a, from_str H pk_valid (h ++ x31 :: d) = AOk a -> ~ is_segwit a).
+Proof. exact hrp_case_rejected. Qed.
+
+(* REMAINING PART OF THE HRP CLAUSE, NOT PROVED (declared partial in DESIGN.md) — replacements by characters other than the other-case form:
      forall s s', s parses as a segwit address -> s' = s with one or two characters of the human-readable part replaced ->
        forall p' in builtin, parse_with_params s' p' fails /\ from_str s' fails.
    What holds and why it is not a theorem here: a changed HRP either matches no built-in HRP (then the string takes the base58check
@@ -77,7 +95,8 @@ Proof. exact from_str_segwit. Qed.
    (network, blinded) class.  Within one checksum family the only built-in pair reachable by <= 2 replacements is "lq" <-> "el",
    whose HRP expansions differ in exactly two symbols, so C17_two_errors rejects it; across families (ex<->el, ex<->lq, tex<->tlq)
    the word is checked against a different code (6 vs 12 checksum symbols), where acceptance would need a 30-/60-bit accident.
-   The harness evaluates the clause on the implementation (tag hrp-char). *)
+   The harness evaluates the clause on the implementation: sampled (tag hrp-char) and completely for one address of each (network, blinded)
+   class — every replacement of one and of every two HRP characters by the other 65 characters of the alphabet (kind `C17 r`, tag hrp-enum). *)
 
 (* non-vacuity: a real address, a one-symbol corruption of it, and the hypotheses of C17_address hold for them *)
 Example C17_nonvacuous :
@@ -88,6 +107,16 @@ Proof. cbv zeta. split; [|split].
   - cbn. tauto.
   - unfold data_edit. eexists _, _, _, _, _. split; [vm_compute; reflexivity|]. split; [reflexivity|].
     split; [vm_compute; reflexivity|]. split; [vm_compute; reflexivity|]. split; [reflexivity|]. vm_compute. lia. Qed.
+(* non-vacuity of the case theorems: the witness of seeded change C17-2 — both letters of `el` in upper case, lower-case data part — is a
+   mixed-case string whose prefix matches ELEMENTS' blinded HRP, and its lower-case form is a valid blinded address *)
+Example C17_nonvacuous_mixed_case :
+  let s := "EL1qq0umk3pez693jrrlxz9ndlkuwne93gdu9g83mhhzuyf46e3mdzfpva0w48gqgzgrklncnm0k5zeyw8my2ypfsmxh4xcjh2rse"%lb in
+  mixed_case s = true /\ segwit_path s ELEMENTS = true /\
+  (exists a, parse_with_params (fun _ => []) (fun _ => true) (lower s) ELEMENTS = AOk a /\ is_segwit a) /\
+  (exists e, parse_with_params (fun _ => []) (fun _ => true) s ELEMENTS = AErr e).
+Proof. cbv zeta. split; [vm_compute; reflexivity|]. split; [vm_compute; reflexivity|]. split.
+  - eexists. split; [vm_compute; reflexivity|]. eexists _, _. reflexivity.
+  - eexists. vm_compute. reflexivity. Qed.
 Example C17_nonvacuous_codeword : exists w, sym_word w /\ (length w <= 1023)%nat /\ valid_codeword blech32m w = true.
 Proof. exists (hrp_expand "lq"%lb ++ [1; 2; 3] ++ checksum_syms blech32m (hrp_expand "lq"%lb ++ [1; 2; 3])). split; [|split].
   - vm_compute. repeat constructor. - vm_compute. lia. - vm_compute. reflexivity. Qed.
@@ -111,3 +140,6 @@ Print Assumptions C17_address.
 Print Assumptions C17_address_other_network_partial.
 Print Assumptions C17_address_every_network.
 Print Assumptions C17_from_str_is_builtin.
+Print Assumptions C17_mixed_case.
+Print Assumptions C17_mixed_case_address.
+Print Assumptions C17_hrp_case.
